@@ -17,7 +17,8 @@ NoI == [p |-> FALSE, v |-> 0]
 F(ks, lim) == [ids |-> Abs, authors |-> Abs, kinds |-> ks, tags |-> <<>>, since |-> NoI, until |-> NoI, limit |-> lim]
 KindOpts == {Abs, [p |-> TRUE, s |-> {1}], [p |-> TRUE, s |-> {2}], [p |-> TRUE, s |-> {}], [p |-> TRUE, s |-> {1, 2}]}
 LimOpts  == {NoI, [p |-> TRUE, v |-> 0], [p |-> TRUE, v |-> 1], [p |-> TRUE, v |-> 2]}
-Filters  == {F(k, lm) : k \in KindOpts, lm \in LimOpts}
+IdF(lm)  == [ids |-> [p |-> TRUE, s |-> {"i1"}], authors |-> Abs, kinds |-> Abs, tags |-> <<>>, since |-> NoI, until |-> NoI, limit |-> lm]
+Filters  == {F(k, lm) : k \in KindOpts, lm \in LimOpts} \cup {IdF(lm) : lm \in LimOpts}
 Lists    == {<<f>> : f \in Filters} \cup {<<f, g>> : f \in Filters, g \in Filters}
 
 VARIABLES fs, cnt, hist
